@@ -607,6 +607,19 @@ def _rank_run(st, recipe, rank, faults, stop_after):
     mpi4py.MPI = mpi
     sys.modules["mpi4py"] = mpi4py
     sys.modules["mpi4py.MPI"] = mpi
+    try:
+        return _rank_run_inner(st, recipe, rank, faults, stop_after)
+    finally:
+        # give the thread-simulator facade back to later commands
+        from . import simmpi
+        sys.modules.pop("mpi4py", None)
+        sys.modules.pop("mpi4py.MPI", None)
+        simmpi.install_fake_mpi4py()
+
+
+def _rank_run_inner(st, recipe, rank, faults, stop_after):
+    import pytato as pt
+    from . import mrecipe, partcheck
     dag = mrecipe.build_rank(recipe, rank, faults=faults)
     comm = _ProcComm(rank, recipe["nranks"])
     part = pt.find_distributed_partition(comm, dag)
@@ -654,3 +667,142 @@ def op_dbg_single(st, recipe, what):
             return 3
     except Exception:  # noqa: BLE001
         return -1
+
+
+# {{{ process actor for the full pipeline (C08): point-to-point over the pipe
+
+class _Abort(RuntimeError):
+    pass
+
+
+def _expect(kind):
+    _send, recv = PIPE
+    msg = recv()
+    if msg[0] == "abort":
+        raise _Abort("run aborted by the orchestrator")
+    if msg[0] != kind:
+        raise RuntimeError(f"expected {kind}, got {msg[0]}")
+    return msg
+
+
+class _ProcRequest:
+    def __init__(self, rid, buf=None):
+        self.rid = rid
+        self.buf = buf
+        self.done = False
+
+    def _fill(self, data):
+        if self.buf is not None and data is not None and self.buf.size:
+            self.buf.reshape(-1).view(np.uint8)[...] = \
+                np.frombuffer(data, dtype=np.uint8)
+        self.done = True
+
+    def Wait(self, status=None):
+        if self.done:
+            return True
+        send, _recv = PIPE
+        send(("wait", self.rid))
+        msg = _expect("wait-ret")
+        self._fill(msg[1])
+        return True
+
+    @staticmethod
+    def Waitsome(requests, statuses=None):
+        send, _recv = PIPE
+        send(("waitsome", [r.rid for r in requests]))
+        msg = _expect("waitsome-ret")
+        idx, data = msg[1], msg[2]
+        if idx:
+            for i in idx:
+                requests[i]._fill(data.get(requests[i].rid))
+        return idx
+
+
+class _ProcComm2(_ProcComm):
+    def _coll(self, name, obj, root, op=None):
+        send, recv = PIPE
+        self.ncoll += 1
+        send(("coll", name, pickle.dumps(obj, protocol=pickle.HIGHEST_PROTOCOL),
+              root, bool(op is not None and op.commute)))
+        while True:
+            msg = recv()
+            if msg[0] == "fold":
+                a, b = pickle.loads(msg[1]), pickle.loads(msg[2])
+                send(("folded", pickle.dumps(op.fn(a, b, None),
+                                             protocol=pickle.HIGHEST_PROTOCOL)))
+            elif msg[0] == "coll-result":
+                return None if msg[1] is None else pickle.loads(msg[1])
+            elif msg[0] == "coll-result-list":
+                return [pickle.loads(b) for b in msg[1]]
+            elif msg[0] == "abort":
+                raise _Abort("run aborted by the orchestrator")
+            else:
+                raise RuntimeError(f"unexpected message {msg[0]}")
+
+    def Isend(self, buf, dest, tag=0):
+        send, _recv = PIPE
+        data = np.array(buf, order="C")
+        send(("isend", data.tobytes(), int(dest), int(tag)))
+        msg = _expect("req")
+        return _ProcRequest(msg[1])
+
+    def Irecv(self, buf, source, tag=0):
+        send, _recv = PIPE
+        if buf.size:
+            buf.reshape(-1).view(np.uint8)[...] = 0xAB      # poison
+        send(("irecv", int(buf.nbytes), int(source), int(tag)))
+        msg = _expect("req")
+        return _ProcRequest(msg[1], buf)
+
+
+def op_rank_exec(st, recipe, rank, iterations=1):
+    try:
+        return _rank_exec(st, recipe, rank, iterations)
+    except Exception as e:  # noqa: BLE001
+        import traceback
+        return {"raised": {"type": type(e).__name__,
+                           "mro": [c.__name__ for c in type(e).__mro__],
+                           "msg": str(e)[:300],
+                           "tb": traceback.format_exc()[-1500:]}}
+
+
+def _rank_exec(st, recipe, rank, iterations):
+    import sys
+    import types
+    import pytato as pt
+    from . import distrun, mrecipe      # (also patches pyopencl.array.to_device)
+    mpi4py = types.ModuleType("mpi4py")
+    mpi = types.ModuleType("mpi4py.MPI")
+    mpi.Op = _ProcOp
+    mpi.Request = _ProcRequest
+    mpi4py.MPI = mpi
+    sys.modules["mpi4py"] = mpi4py
+    sys.modules["mpi4py.MPI"] = mpi
+    try:
+        dag = mrecipe.build_rank(recipe, rank)
+        comm = _ProcComm2(rank, recipe["nranks"])
+        part = pt.find_distributed_partition(comm, dag)
+        pt.verify_distributed_partition(comm, part)
+        npart, _next_tag = pt.number_distributed_tags(comm, part, base_tag=4242)
+        monitor = {"violations": [], "part_execs": [],
+                   "codegen_own_failures": 0}
+        import collections
+        monitor["shadow"] = collections.Counter()
+        prgs = {pid: distrun.StubProgram(rank, p, npart, monitor)
+                for pid, p in npart.parts.items()}
+        inputs = mrecipe.rank_inputs(recipe, rank)
+        outs = []
+        for _it in range(iterations):
+            out = pt.execute_distributed_partition(
+                npart, prgs, None, comm, input_args=dict(inputs))
+            outs.append({k: np.array(v) for k, v in out.items()})
+        return {"outs": outs, "violations": monitor["violations"],
+                "nparts": len(npart.parts), "stage": "executed"}
+    finally:
+        # give the thread-simulator facade back to later commands
+        from . import simmpi
+        sys.modules.pop("mpi4py", None)
+        sys.modules.pop("mpi4py.MPI", None)
+        simmpi.install_fake_mpi4py()
+
+# }}}
